@@ -1,6 +1,7 @@
 import PhyVerif.Model.C02
 import PhyVerif.Spec.C01
 import PhyVerif.Lemmas.C02
+import PhyVerif.Lemmas.C02b
 /-!
 # C02 — lazy reader expressions commute with eager evaluation; deriving never aliases
 Only property theorems + non-vacuity examples; proofs in `Lemmas/C02.lean`.
@@ -48,6 +49,37 @@ theorem derivations_preserve {β : Type} (h : Heap β) (ds : List (Nat × Op β)
     (runDerivations h ds).getD r' [] = h.getD r' [] :=
   Lemmas.derivations_preserve h ds r' hr'
 
+/-! ### `_append_op` statement by statement, with Python's object semantics (Model/C02b)
+
+List objects live in a store by address, a reader object holds the address of its `_ops` list; `copy.copy` shares
+the address, `list(…)` allocates, `.append` mutates in place. -/
+
+/-- After `clone = copy.copy(self); clone._ops = list(self._ops); clone._ops.append(op)` the clone carries the
+parent's operations plus the new one, every reader object that existed before carries exactly what it carried
+(parent, siblings, anything else), and the store stays well formed (so the statement applies again: by induction
+every derivation history leaves every existing reader untouched). -/
+theorem appendOp_statements (β : Type) (s : Store β) (hwf : s.WF) (self : Nat) (op : Op β)
+    (hs : self < s.readers.length) :
+    let s' := run s (appendOpProgram s self op)
+    s'.opsOf s.readers.length = s.opsOf self ++ [op] ∧
+    (∀ rd, rd < s.readers.length → s'.opsOf rd = s.opsOf rd) ∧ s'.WF :=
+  ⟨Lemmas.appendOp_clone_ops s self op hs, fun rd hr => Lemmas.appendOp_frame s hwf self op hs rd hr,
+   Lemmas.appendOp_wf s hwf self op hs⟩
+
+/-- Refinement: seen reader by reader (`Store.abs`), the three statements ARE the abstract `derive` the theorems
+above talk about. -/
+theorem appendOp_refines_derive (β : Type) (s : Store β) (hwf : s.WF) (self : Nat) (op : Op β)
+    (hs : self < s.readers.length) :
+    (run s (appendOpProgram s self op)).abs = (derive s.abs self op).1 :=
+  Lemmas.appendOp_refines_derive s hwf self op hs
+
+/-- The model can express the regression the NOTE in the code warns about and tells it apart from the real method:
+without the fresh list the PARENT ends up carrying the new operation too. -/
+theorem aliasing_variant_changes_parent (β : Type) (s : Store β) (hwf : s.WF) (self : Nat) (op : Op β)
+    (hs : self < s.readers.length) :
+    (run s (aliasingVariant s self op)).opsOf self = s.opsOf self ++ [op] :=
+  Lemmas.aliasing_variant_changes_parent s hwf self op hs
+
 /-! Non-vacuity: cells are (id, trace of applied operator tokens) -/
 example :
     let parts : List (List (List (Nat × List Nat))) := [[[(0, []), (1, [])]], [[(2, []), (3, [])], [(4, []), (5, [])]]]
@@ -59,5 +91,17 @@ example :
     eval d3.1 parts d2.2 (.slice (some 1) none) = some [[(3, [7]), (2, [7])], [(5, [7]), (4, [7])]] ∧
     eval d3.1 parts 0 (.int 0) = some [[(0, []), (1, [])]] ∧
     eval d3.1 parts d3.2 (.int (-1)) = some [[(4, [9]), (5, [9])]] := by decide
+
+/-- a store with one reader (no operations) meets the hypotheses; after two derivations from the same parent the
+three readers carry [], [cols [1,0]], [cols [0]] -/
+example :
+    let s0 : Store Nat := ⟨[[]], [0]⟩
+    let s1 := run s0 (appendOpProgram s0 0 (.cols (.idx [1, 0])))
+    let s2 := run s1 (appendOpProgram s1 0 (.cols (.idx [0])))
+    s0.readers.length = 1 ∧ (s2.abs.map List.length) = [0, 1, 1] ∧ s2.readers = [0, 1, 2] ∧
+    ((run s0 (aliasingVariant s0 0 (.cols (.idx [0])))).abs.map List.length) = [1, 1] := by decide
+example : (⟨[[]], [0]⟩ : Store Nat).WF := by
+  intro rd hr; simp only [List.length_singleton] at hr; have : rd = 0 := by omega
+  subst this; decide
 
 end PhyVerif.C02
